@@ -200,7 +200,6 @@ static std::string gated(const std::vector<std::string> &items)
   }
   std::vector<std::string> out;
   std::size_t seen = 0;
-  std::vector<std::string> pendingIds;      // requests without an X-Req header in their answer, in feed order
   auto drain = [&]()
   {
     std::lock_guard<std::mutex> lk(elog.m);
@@ -211,57 +210,54 @@ static std::string gated(const std::vector<std::string> &items)
       else if (ev.kind == 'c') out.push_back("X");
     }
   };
-  auto waitEvents = [&](std::size_t atLeast, int ms)
+  // the requests of the connection in arrival order: a request can be answered once every earlier one has been
+  // (the server handles one request per connection at a time) and its own handler gate is open
+  struct Rq { std::string id, kind; bool open; };
+  std::vector<Rq> rqs;
+  auto immediateKind = [](const std::string &k) { return k == "na" || k == "opt" || k == "star" || k == "bad" || k == "ver"; };
+  auto expectedSends = [&]() -> std::size_t
   {
-    for (int i = 0; i < ms * 5; ++i)
+    std::size_t n = 0;
+    for (auto &r : rqs)
     {
-      { std::lock_guard<std::mutex> lk(elog.m); if (elog.evs.size() >= atLeast) return true; }
-      std::this_thread::sleep_for(std::chrono::microseconds(200));
+      if (!(r.open || immediateKind(r.kind))) break;
+      if (r.kind != "supp") ++n;
     }
-    return false;
+    return n;
   };
+  auto sendCount = [&]() { std::lock_guard<std::mutex> lk(elog.m); std::size_t n = 0; for (auto &e : elog.evs) if (e.kind == 's') ++n; return n; };
   bool hung = false;
-  std::map<std::string, std::string> kindOf;
+  auto settle = [&]()
+  {
+    std::size_t want = expectedSends();
+    for (int i = 0; i < 25000 && sendCount() < want; ++i) std::this_thread::sleep_for(std::chrono::microseconds(200));
+    if (sendCount() < want) hung = true;
+    // a suppressed head-of-line request leaves no send: give its handler and the close commands a moment
+    std::this_thread::sleep_for(std::chrono::milliseconds(4));
+    drain();
+  };
   for (auto &item : items)
   {
     if (item.empty() || hung) continue;
     if (item[0] == 'Q')
     {
       std::string chunk;
-      int immediate = 0, closes = 0;
       for (auto &q : split(item, '+'))
       {
         auto p = split(q.substr(1), ':');
         bool close = p.size() > 2 && p[2] == "c";
-        kindOf[p[0]] = p[1];
+        rqs.push_back({p[0], p[1], false});
         chunk += requestBytes(p[0], p[1], close);
-        bool imm = p[1] == "na" || p[1] == "opt" || p[1] == "star" || p[1] == "bad" || p[1] == "ver";
-        if (imm) { immediate++; if (close || p[1] == "bad" || p[1] == "ver") closes++; }
       }
-      std::size_t before;
-      { std::lock_guard<std::mutex> lk(elog.m); before = elog.evs.size(); }
       srv->handleIncomingData(sid, reinterpret_cast<const std::uint8_t *>(chunk.data()), chunk.size());
-      // requests that no handler gates answer at once (the script never pipelines two of them)
-      if (immediate && !waitEvents(before + static_cast<std::size_t>(immediate + closes), 5000)) hung = true;
-      drain();
+      settle();
     }
     else if (item[0] == 'O')
     {
       std::string id = item.substr(1);
-      std::size_t before;
-      { std::lock_guard<std::mutex> lk(elog.m); before = elog.evs.size(); }
+      for (auto &r : rqs) if (r.id == id) r.open = true;
       { std::lock_guard<std::mutex> lk(g.m); g.open.insert(id); g.cv.notify_all(); }
-      if (kindOf[id] == "supp")
-      {
-        std::unique_lock<std::mutex> lk(g.m);
-        if (!g.cv.wait_for(lk, std::chrono::seconds(5), [&] { return g.finished.count(id) != 0; })) hung = true;
-        lk.unlock();
-        std::this_thread::sleep_for(std::chrono::milliseconds(3));
-      }
-      else if (!waitEvents(before + 1, 5000)) hung = true;
-      // a close command follows its send at once
-      std::this_thread::sleep_for(std::chrono::milliseconds(2));
-      drain();
+      settle();
     }
   }
   // quiesce: open every gate, wait for the pool
